@@ -55,8 +55,14 @@ class ECBinding(CryptographyBinding):
         return raw_key
 
     @classmethod
+    def get_curve(cls, name: str) -> EllipticCurve:
+        if name not in cls._dss_curves:
+            raise ValueError('Invalid crv value: "{}"'.format(name))
+        return cls._dss_curves[name]()
+
+    @classmethod
     def import_private_key(cls, obj: ECDictKey) -> EllipticCurvePrivateKey:
-        curve = cls._dss_curves[obj["crv"]]()
+        curve = cls.get_curve(obj["crv"])
         public_numbers = EllipticCurvePublicNumbers(
             base64_to_int(obj["x"]),
             base64_to_int(obj["y"]),
@@ -78,7 +84,7 @@ class ECBinding(CryptographyBinding):
 
     @classmethod
     def import_public_key(cls, obj: ECDictKey) -> EllipticCurvePublicKey:
-        curve = cls._dss_curves[obj["crv"]]()
+        curve = cls.get_curve(obj["crv"])
         public_numbers = EllipticCurvePublicNumbers(
             base64_to_int(obj["x"]),
             base64_to_int(obj["y"]),
